@@ -78,6 +78,9 @@ func (c *ctx) shutdown() {
 		base     int64 // deadline armed first since the last packet boundary
 		haveBase bool
 		closedAt int64
+		budget   int64 // the read timeout the server grants a packet (learned from its first arming)
+		since    int64 // when the wait for the current packet began (accept, or end of the previous packet's handling)
+		stale    bool  // a packet was handled and no deadline has been armed since
 	}
 	conns := map[int]*st{}
 	get := func(id int) *st {
@@ -99,6 +102,11 @@ func (c *ctx) shutdown() {
 		case "set-read-deadline":
 			s.armed = true
 			s.deadline = e.A
+			s.stale = false
+			if s.budget == 0 && e.A > e.T {
+				s.budget = e.A - e.T
+				s.since = e.T
+			}
 			if e.A >= 0 && e.A <= e.T {
 				c.v("C17/deadline-not-in-future", "conn %d: read deadline armed at t=%d for t=%d", e.Conn, e.T, e.A)
 			}
@@ -110,9 +118,22 @@ func (c *ctx) shutdown() {
 		case "read-begin":
 			if !s.armed || s.deadline < 0 {
 				c.v("C17/read-without-deadline", "conn %d: Read called with no finite read deadline armed", e.Conn)
+			} else if s.stale {
+				c.v("C17/read-under-stale-deadline", "conn %d: after a packet was handled the connection was read again without arming a read deadline first: the wait for the next packet runs on what is left of the previous packet's time", e.Conn)
+				s.stale = false
+			}
+		case "read-end":
+			if strings.HasSuffix(e.S, "i/o timeout") && s.budget > 0 && e.T < s.since+s.budget {
+				// the server grants every packet `budget` from the moment it starts waiting
+				// for it; giving up earlier loses a packet that did not stall
+				for _, id := range []string{"C05", "C17"} {
+					c.v(id+"/premature-read-timeout", "conn %d: the read timed out at t=%d although the wait for this packet began at t=%d and the server grants %d per packet: bytes that arrive in time are lost depending on how they were coalesced with the previous packet", e.Conn, e.T, s.since, s.budget)
+				}
 			}
 		case "invoke-end":
 			s.haveBase = false
+			s.since = e.T
+			s.stale = true
 		case "close":
 			if s.closedAt < 0 {
 				s.closedAt = e.T
